@@ -85,7 +85,7 @@ func H_sign() {
 		files = append(files, hlib.File{Path: "f" + string(rune('0'+i)), Data: d})
 		contents = append(contents, d)
 	}
-	b := &hlib.Build{Files: files, Dirs: []string{"emptydir"}, Links: []hlib.Link{{Path: "lnk", Dest: "f0"}}}
+	b := &hlib.Build{Files: files, Dirs: []string{"emptydir"}, Links: []hlib.Link{{Path: "lnk", Dest: "f0"}, {Path: "lnk-dot", Dest: "./f0"}, {Path: "lnk-slash", Dest: "emptydir/"}, {Path: "lnk-up", Dest: "emptydir/../f0"}}}
 	root := rt.TempDir()
 	b.Write(root + "/new")
 	(&hlib.Build{}).Write(root + "/old")
